@@ -139,3 +139,5 @@ void wsim_free(void *p);
 #define realloc wsim_realloc
 #define free wsim_free
 #endif
+
+#include "../wincommon/wincodes.h"
